@@ -157,7 +157,8 @@ class Inliner:
             return None
         B = M.Body(out)
         os_ = M.trace(B, t["args"][0], M.IDENTITY_CALLS)
-        if len(os_) != 1 or os_[0].kind != "aggregate" or not os_[0].rv.get("closure") or os_[0].proj:
+        # (a closure that is reached through a capture of another closure arrives behind a dereference)
+        if len(os_) != 1 or os_[0].kind != "aggregate" or not os_[0].rv.get("closure") or [p_ for p_ in (os_[0].proj or []) if p_ != "deref"]:
             return None
         cpath = os_[0].rv["closure"]
         cb = self.crate.body(cpath)
